@@ -233,8 +233,8 @@ def run(ctx):
                               foldmodes=('given',)), 1, 500),
             ('reps5cv', dict(nobs=5, nch=2, nlab=3, dataids=(2, 3), nanmode='none', foldmodes=('given',),
                              methods=('euclidean', 'poisson_cv', 'crossnobis', 'correlation'), precids=(0, 1)), 8, 8000),
-            ('nodesc', dict(nobs=4, nch=2, nlab=3, dataids=(3, 1), nanmode='none',
-                            nodescs=(True, False), idxkinds=('none', 'perm', 'rep'), priors=(False, True)), 12, 10000),
+            ('nodesc', dict(nobs=4, nch=2, nlab=3, dataids=(3,), nanmode='none', weightings=('number',),
+                            nodescs=(True, False), idxkinds=('none', 'perm', 'rep'), priors=(False, True)), 6, 10000),
             ('nodesc_nan', dict(nobs=3, nch=2, nlab=2, dataids=(2,), nanmode='obs', foldmodes=('none',),
                                 nodescs=(True,), idxkinds=('none', 'perm', 'rep'), priors=(False, True)), 4, 3000),
         ]
